@@ -41,10 +41,13 @@ pub fn strip_variable_parts(msg: &str) -> String {
     let mut out = String::new();
     let mut in_quote = false;
     let mut depth = 0i32;
+    let mut quote_char = '"';
     for ch in first.chars() {
         match ch {
-            '"' => {
+            // quoted, back-quoted and single-quoted parts carry input text: not part of the class
+            '"' | '`' | '\'' if !in_quote || ch == quote_char => {
                 in_quote = !in_quote;
+                quote_char = ch;
                 if !in_quote {
                     out.push('_');
                 }
